@@ -429,6 +429,8 @@ def r11_9(ctx: Ctx) -> None:
 
 
 def run(ctx: Ctx) -> None:
+    from . import c15 as _c15r
+    _c15r.r15_16(ctx, rule="R11.10")  # a failed append puts the header back as it was found (encrypted iff it was)
     r11_9(ctx)
     r11_8(ctx)
     r11_7(ctx)
